@@ -71,7 +71,7 @@ def run(chk):
         costs = rng.integers(-16, 17, size=n) / 8.0
         cq = [F(float(c)) for c in costs]
         base = {"QR": [int(i) for i in QR().fit(B).get_sensors()],
-                "CCQR": [int(i) for i in impl.quiet(CCQR(sensor_costs=costs.copy()).fit, B.copy()).get_sensors()]}
+                "CCQR": [int(i) for i in impl.quiet(CCQR(sensor_costs=costs).fit, B.copy()).get_sensors()]}
         Nn = int(rng.integers(1, k + 1))
         # a region that contains several of the unconstrained top-N sensors, with an allowance below that count half of the time
         top = base["QR"][:Nn]
@@ -97,7 +97,7 @@ def run(chk):
         B2q = [[sum(Bq[i][u] * Q[u][t] for u in range(m)) for t in range(m)] for i in range(n)]
         exactQ = all(F(float(B2[i][t])) == B2q[i][t] for i in range(n) for t in range(m))
         got = {"QR": [int(i) for i in QR().fit(B2).get_sensors()],
-               "CCQR": [int(i) for i in impl.quiet(CCQR(sensor_costs=costs.copy()).fit, B2.copy()).get_sensors()]}
+               "CCQR": [int(i) for i in impl.quiet(CCQR(sensor_costs=costs).fit, B2.copy()).get_sensors()]}
         got["GQR"] = [int(i) for i in impl.quiet(GQR().fit, B2.copy(), all_sensors=np.array(got["QR"]), **gk).get_sensors()]
         case = {**case0, "transform": "right-orthogonal", "Q": [[str(x) for x in r] for r in Q], "observed": got}
         chk.case(case)
